@@ -55,4 +55,31 @@ Level2 ==
   \cup {ListWithTail(xs, t) : xs \in NonEmptySeqs(Rep2, 2), t \in {Vec(<<Sym(<<43>>)>>), Sym(<<45>>), IntV(TRUE, One), Str(<<>>)}}
 
 Universe(ids, W) == Atoms(ids) \cup Level1(W) \cup Level2
+
+(***************************************************************************)
+(* Probe values for the dialect pairings of C02: every kind, names that    *)
+(* are plain under every option set, and the shapes that interact with the *)
+(* option dimensions (sign symbols before a closing bracket, dotted pairs  *)
+(* inside vectors, vectors as tails, empty / non-empty byte vectors,       *)
+(* strings mixing controls and non-ASCII text, every character class).     *)
+(***************************************************************************)
+ProbeNames == {<<97>>, <<43>>, <<45>>, <<46, 46, 46>>, <<955>>, <<102, 111, 111, 45, 98, 97, 114>>, <<97, 49>>,
+               <<60, 61>>, <<97, 46, 98>>, <<233, 97>>, <<101>>, <<110, 105, 108, 120>>} \cap PortableIdents
+
+ProbeC02 ==
+  Specials
+  \cup {IntV(FALSE, Zero), IntV(TRUE, One), IntV(FALSE, U64Max), IntV(TRUE, I64MaxPlus1)}
+  \cup {FltV(FALSE, <<1, 5>>, -1), FltV(TRUE, Zero, 0), FltV(FALSE, <<1>>, 21), FltV(FALSE, <<5>>, -324)}
+  \cup Chars
+  \cup {Str(<<>>), Str(<<97>>), Str(<<34, 92>>), Str(<<7, 10, 955>>), Str(<<0, 127, 233, 128512>>), Str(<<27, 9, 13, 8>>),
+        Str(<<955, 1, 955>>), Str(<<92, 120, 52, 49>>), Str(<<35, 59, 40>>)}
+  \cup {Sym(s) : s \in ProbeNames} \cup {Kw(s) : s \in ProbeNames}
+  \cup ByteVs
+  \cup {Vec(<<>>), Vec(<<Sym(<<97>>), Sym(<<43>>)>>), Vec(<<Sym(<<97>>), Sym(<<45>>)>>), Vec(<<Sym(<<46, 46, 46>>)>>),
+        Vec(<<ListWithTail(<<Sym(<<97>>)>>, Sym(<<98>>))>>), ListWithTail(<<Sym(<<97>>)>>, Vec(<<IntV(FALSE, One)>>)),
+        List(<<Sym(<<97>>), Sym(<<43>>)>>), List(<<Nil, Bool(FALSE), Bool(TRUE), Null>>),
+        ListWithTail(<<IntV(FALSE, One), IntV(FALSE, <<2>>)>>, IntV(FALSE, <<3>>)),
+        ListWithTail(<<Kw(<<97>>)>>, Kw(<<98>>)), Vec(<<Bytes(<<>>), Bytes(<<1, 255>>), Char(955), Str(<<>>)>>),
+        List(<<List(<<Sym(<<97>>)>>), Vec(<<Vec(<<>>)>>), Null>>), List(<<Char(41), Char(93), Char(59), Char(32)>>),
+        Vec(<<Kw(<<43>>), Sym(<<45>>)>>), ListWithTail(<<Nil>>, Nil), ListWithTail(<<Bool(TRUE)>>, Bool(FALSE))}
 =============================================================================
